@@ -301,6 +301,9 @@ def run_case(case, rec):
         obligations += 1
         if o.fired != 1:
             V("when-disconnected-fired-%d-times" % o.fired, {"label": o.label})
+        elif o.ok or type(o.value).__name__ != "TorDisconnectError":
+            # each request is told about the loss itself, not what an earlier requester's handler left behind
+            V("when-disconnected-not-told-about-the-loss", {"label": o.label, "got": o.describe()})
     if s.transport.writes_after_loss:
         V("write-after-loss", {"writes": [d for (_, d) in s.transport.writes_after_loss]})
     for e in s.exceptions:
